@@ -174,8 +174,8 @@ PROPS = {
         # of the sequential engine count for C03 as well
         'oracles': ['C03', 'C09', 'C02'], 'bv_decide': True,
         'geoms': {'quick': ['default', 'th1'], 'thorough': ALLG},
-        'runs': {'quick': [conc(12, 60, 30, 4), conc(2, 60, 20, 0, kind=6), seq('mixed', 20, 150), seq('lower', 20, 150)],
-                 'thorough': [conc(150, 400, 200, 20, bound=3), conc(10, 200, 100, 0, kind=6, bound=3), seq('mixed', 300, 300), seq('lower', 300, 300)]},
+        'runs': {'quick': [conc(12, 60, 30, 4), conc(2, 60, 20, 0, kind=6), seq('mixed', 20, 150), seq('lower', 20, 150), seq('change', 20, 200)],
+                 'thorough': [conc(150, 400, 200, 20, bound=3), conc(10, 200, 100, 0, kind=6, bound=3), seq('mixed', 300, 300), seq('lower', 300, 300), seq('change', 300, 300)]},
         'rule': T_RULE + ('Oracle: no call panics (panic capture per thread) and every free of a block the thread holds returns Ok. '
                           'The known finding K1 (spin in partial_put_huge exhausts RETRIES) is matched by its panic message. '
                           'Scenario kind 6: a free into an offline tree racing with change_tree(Online) (oracles only: a concurrent Online is outside the '
